@@ -3,3 +3,4 @@ import MudModel.Cx
 import MudModel.Poisson
 import MudModel.Hop
 import MudModel.Hopping
+import MudModel.Verlet
